@@ -94,11 +94,19 @@ type Endpoint struct {
 	keepReading   int
 	readsAfterErr int
 	gotAfterErr   int
+
+	// paused: the application does not call Read for now (data stays inside
+	// the transport's own buffers); pauseAfter counts Reads allowed before
+	// the pause takes effect
+	paused     bool
+	pauseAfter int
+	pcond      *sync.Cond
 }
 
 // Start launches the endpoint goroutine.
 func Start(n *wire.Net, s wire.Side, setup func() (net.Conn, error)) *Endpoint {
 	ep := &Endpoint{Net: n, Side: s, bufSize: 65536, exitCh: make(chan struct{})}
+	ep.pcond = sync.NewCond(&ep.mu)
 	go ep.run(setup)
 	return ep
 }
@@ -129,6 +137,15 @@ func (ep *Endpoint) run(setup func() (net.Conn, error)) {
 	buf := make([]byte, 1<<17)
 	for {
 		ep.mu.Lock()
+		for ep.paused && ep.pauseAfter <= 0 {
+			// counts as quiescent: nothing will happen on this side until Resume
+			ep.Net.SetIdle(ep.Side, true)
+			ep.pcond.Wait()
+		}
+		ep.Net.SetIdle(ep.Side, false)
+		if ep.paused {
+			ep.pauseAfter--
+		}
 		k := ep.bufSize
 		ep.mu.Unlock()
 		n, err := conn.Read(buf[:k])
@@ -150,6 +167,24 @@ func (ep *Endpoint) run(setup func() (net.Conn, error)) {
 		}
 		ep.mu.Unlock()
 	}
+}
+
+// Pause makes the application stop calling Read after `after` more Read
+// calls (0 = before the next one); what has arrived stays inside the transport.
+// A paused reader counts as quiescent for the wire.
+func (ep *Endpoint) Pause(after int) {
+	ep.mu.Lock()
+	ep.paused, ep.pauseAfter = true, after
+	ep.mu.Unlock()
+}
+
+// Resume lets the application read again.
+func (ep *Endpoint) Resume() {
+	ep.mu.Lock()
+	ep.paused = false
+	ep.Net.SetIdle(ep.Side, false) // before the reader wakes: not quiescent again until it parks in Read
+	ep.pcond.Broadcast()
+	ep.mu.Unlock()
 }
 
 // KeepReading makes the read loop call Read k more times after the first
